@@ -356,6 +356,12 @@ func c01DeepTemplates() []c01DeepTemplate {
 		{"recursion-inside-loop", []gen.Node{gen.SubDef{Name: "s", Body: []gen.Node{gen.Lit{S: "("}, star(gen.Or{Alts: []gen.Node{gen.SubCall{Name: "s"}, gen.Class{Kind: "letter"}}}, false), gen.Lit{S: ")"}}}}, func(k int) []string {
 			return []string{rep("(a", k) + rep(")", k), rep("(a(b)", k/2) + rep(")", k/2), rep("(ab)", k)}
 		}},
+		// four call frames per consumed byte (s enters t enters u enters v calls s): the call stack is much deeper than the match is long
+		{"four-frames-per-byte", []gen.Node{gen.SubDef{Name: "s", Body: []gen.Node{gen.Lit{S: "a"}, gen.Loop{Min: 0, Max: 1, Form: "maybe", Body: gen.SubDef{Name: "t", Body: []gen.Node{gen.SubDef{Name: "u", Body: []gen.Node{gen.SubDef{Name: "v", Body: []gen.Node{gen.SubCall{Name: "s"}}}}}}}}}}}, func(k int) []string {
+			return []string{rep("a", k), "b" + rep("a", k) + "b", rep("a", k/2) + "-" + rep("a", k/2+1)}
+		}},
+		// k subroutines nested around one literal, no recursion at all
+		{"nested-subroutines", nil, func(k int) []string { return []string{"xab-ab", "ab", "a b"} }},
 		{"many-matches", []gen.Node{gen.Lit{S: "ab"}}, func(k int) []string { return []string{rep("ab", k), rep("abb", k), rep("ba", k) + "b"} }},
 		{"capture-in-deep-loop-then-backref", []gen.Node{x, star(gen.Capture{Name: "v", Body: ab}, false), cc, gen.BackRef{Name: "v"}}, func(k int) []string {
 			return []string{"x" + rep("ab", k) + "cb", "x" + rep("ab", k) + "ca", "x" + rep("ba", k) + "ca"}
@@ -396,6 +402,13 @@ func c01Deep(r *drv.Run) {
 	}
 	var items []item
 	mk := func(t c01DeepTemplate, k int) {
+		if t.name == "nested-subroutines" {
+			var n gen.Node = gen.Lit{S: "ab"}
+			for d := k; d >= 1; d-- {
+				n = gen.SubDef{Name: fmt.Sprintf("n%d", d), Body: []gen.Node{n}}
+			}
+			t.body = []gen.Node{n}
+		}
 		p := &gen.Program{Commands: []gen.Command{{Amount: gen.Amount{Kind: "all"}, Body: t.body}}}
 		var texts [][]byte
 		for _, s := range t.texts(k) {
@@ -404,6 +417,12 @@ func c01Deep(r *drv.Run) {
 		items = append(items, item{t.name, k, &c01Case{p, gen.RenderProgram(p), texts}})
 	}
 	for _, t := range c01DeepTemplates() {
+		if t.name == "nested-subroutines" {
+			for _, k := range []int{10, 255, 256, 257, 1023, 1024, 1025, 1026, 2049} {
+				mk(t, k)
+			}
+			continue
+		}
 		for _, k := range ks {
 			mk(t, k)
 		}
